@@ -211,3 +211,27 @@ func (s *Stream) Control() *Stream {
 	}
 	return c
 }
+
+// Without returns the same records minus everything written for local type l
+// (its definitions and its data records): what the other local types carry
+// must decode the same with and without them.
+func (s *Stream) Without(l int) *Stream {
+	c := newStream(s.hdrSize, s.hdrCRC)
+	c.proto, c.profile = s.proto, s.profile
+	for _, t := range s.toks {
+		if t.l == l {
+			continue
+		}
+		switch t.kind {
+		case 'd':
+			c.Def(t.l, t.def.arch, t.def.global, t.def.fields, t.def.dev)
+		case 'D':
+			c.Data(t.l, t.payload)
+		case 'C':
+			c.Compressed(t.l, t.off, t.payload)
+		default:
+			return nil
+		}
+	}
+	return c
+}
